@@ -108,8 +108,11 @@ func gen(r *verifsim.Rng, tier string) (any, hx.Sched) {
 			}
 		case x < 7:
 			op.K = "obs"
-			if r.Intn(3) == 0 {
+			switch r.Intn(4) {
+			case 0:
 				op.K = "nsobs" // short names resolved from inside `namespace App;`
+			case 1:
+				op.K = "mobs" // names resolved from inside an inherited method of an object this VM's code creates
 			}
 		case x < 9:
 			op.K = "shared"
@@ -239,6 +242,32 @@ func nsObserveScript() string {
 	}
 	b.WriteString("__out($r);\n")
 	return b.String()
+}
+
+// probeScript defines, on the base VM before the history starts, a class whose
+// (inherited) method performs the lookups: names resolved from inside a method
+// of an object must be those of the VM whose code created the object.
+func probeScript() string {
+	// names are resolved dynamically (new $n(), $f()): a literal `new A()` in a
+	// method body parsed once keeps the class it resolved first in its AST node,
+	// which is the known finding already covered by the "shared" snippets
+	var b strings.Builder
+	b.WriteString("<?php\nclass Probe {\n public function see() {\n$r = \"\";\n")
+	for _, n := range classNames {
+		fmt.Fprintf(&b, "$n = \"%s\"; $r .= \"%s=\" . (class_exists($n) ? (new $n())->tag() : \"-\") . \";\";\n", n, n)
+	}
+	for _, n := range funcNames {
+		fmt.Fprintf(&b, "$f = \"%s\"; $r .= \"%s=\" . (function_exists($f) ? \"y\" : \"-\") . \";\";\n", n, n)
+	}
+	for _, n := range ifaceNames {
+		fmt.Fprintf(&b, "$r .= \"%s=\" . (interface_exists(\"%s\") ? \"y\" : \"-\") . \";\";\n", n, n)
+	}
+	b.WriteString("return $r;\n }\n}\nclass ProbeKid extends Probe { }\n")
+	return b.String()
+}
+
+func methodObserveScript() string {
+	return "<?php\n$p = new ProbeKid();\n__out($p->see());\n"
 }
 
 func observeScript() string {
@@ -415,6 +444,10 @@ func exec(t *testing.T, x any, s hx.Sched) *hx.Outcome {
 			return
 		}
 		sy.shared, sy.svars = prog, p.GetVariables()
+		if _, failed := sy.runOn(0, probeScript(), "/verif/c12/probe.php"); failed != "" {
+			o.Violate("C12/harness-setup", "probe classes cannot be defined on the base VM: "+failed)
+			return
+		}
 		m := newModel(w.Temps)
 		if !w.Conc {
 			sim.Spawn("driver", func() {
@@ -552,10 +585,13 @@ func step(o *hx.Outcome, w *W, sy *sys, m *model, k int, op Op, log *[]string, o
 				o.Violate("C12/leak/class/script/nsobs", fmt.Sprintf("after step %d, code in namespace App on vm%d resolves the short name %s to %s (allowed here: %v) (history: %s)", k, op.VM, name, val, keys(allowed), histStr(w, k)))
 			}
 		}
-	case "obs", "shared":
+	case "obs", "shared", "mobs":
 		var out, failed string
 		if op.K == "obs" {
 			out, failed = sy.runOn(op.VM, observeScript(), fmt.Sprintf("/verif/c12/obs%d.php", k))
+		} else if op.K == "mobs" {
+			out, failed = sy.runOn(op.VM, methodObserveScript(), fmt.Sprintf("/verif/c12/mobs%d.php", k))
+			o.Probe("method_level_observations", 1)
 		} else {
 			delete(sy.outs, verifsim.TaskName())
 			ctx := sy.vm(op.VM).CreateContext(sy.svars)
@@ -620,10 +656,10 @@ func histStr(w *W, upto int) string {
 
 func checkOne(o *hx.Outcome, w *W, m *model, k, v int, d Def, got, via string) {
 	tags, must := m.allowed(v, d.Name)
-	if d.Kind == "iface" && got == "y" {
-		// script level only says the interface exists
+	if got == "y" {
+		// existence only (interfaces at script level; functions seen from a method)
 		if len(tags) == 0 {
-			o.Violate("C12/leak/iface/"+via, fmt.Sprintf("after step %d, vm%d resolves interface %s although neither the base VM nor vm%d defines it (history: %s)", k, v, d.Name, v, histStr(w, k)))
+			o.Violate("C12/leak/"+d.Kind+"/"+via, fmt.Sprintf("after step %d, vm%d resolves "+d.Kind+" %s although neither the base VM nor vm%d defines it (history: %s)", k, v, d.Name, v, histStr(w, k)))
 		}
 		return
 	}
